@@ -1,6 +1,10 @@
 """C01 — forward transforms equal the DFT for every length and input.
 
-Spec: Transform.tla (DFT exponent matrix, conjugate symmetry, pad/truncate semantics, output lengths, plan
+Spec: FftKernels.tla — the library's kernels transcribed one to one (small 2/4/8 kernels, bit-reversal and quarter-wave
+twiddle tables, butterfly cascade, 3-point and table DFT, Bluestein index algebra, factor-tree split / transposes /
+twiddles, real-input packing, ifft, irfft tables) and evaluated exactly in finite fields F_P (pairs of conjugate
+embeddings): MC_FftKernels proves kernel = defining sum on every impulse for every length <= 24 (quick) / 96 (thorough).
+Transform.tla (DFT exponent matrix, conjugate symmetry, pad/truncate semantics, output lengths, plan
 kinds, factor split and the Cooley-Tukey index algebra of the P x Q split).  MC_Transform: theorems T1-T6 for
 all lengths <= NMax and a walk of every factorisation tree.  Conformance (Trace_Transform): impulse rows of
 every length -> twiddle exponents compared exactly by TLC (which sample meets which twiddle; by linearity this
@@ -25,6 +29,25 @@ def ranges(lo, hi, parts, power=2):
             start = n + 1
     res.append((start, hi))
     return [r for r in res if r[0] < r[1]]
+
+
+def kernel_jobs(run, quick, variant="fixed", maxlen=None):
+    """MC_FftKernels: the transcribed kernels evaluated exactly in finite fields (one TLC run per field)."""
+    import json
+    import os
+    fields = json.load(open(os.path.join(core.SPEC, "fft_fields_%s.json" % ("quick" if quick else "full"))))
+    jobs = []
+    for i, f in enumerate(fields):
+        lens = [n for n in f["lens"] if maxlen is None or n <= maxlen]
+        if not lens:
+            continue
+        cfg = run.path("MC_FftKernels_%d.cfg" % i)
+        open(cfg, "w").write('CONSTANTS P = %d G = %d N = %d Lens = {%s} Variant = "%s"\nSPECIFICATION Spec\n'
+                             'INVARIANT KernelsEqualDft\nCHECK_DEADLOCK FALSE\n'
+                             % (f["P"], f["G"], f["N"], ", ".join(map(str, lens)), variant))
+        jobs.append((lambda cfg=cfg: core.tlc("MC_FftKernels.tla", cfg, workers=2, timeout=3400, heap="6g"),
+                     "MC_FftKernels field N=%d P=%d lengths %s" % (f["N"], f["P"], lens)))
+    return jobs
 
 
 def check(run, tier, seed, replay=None, only=None):
@@ -53,8 +76,13 @@ def check(run, tier, seed, replay=None, only=None):
     for s in range(2 if quick else 12):
         stages.append(("big-%d" % s, ["--mode", "big", "--budget", 12 if quick else 40, "--seed", seed * 100 + 30 + s]))
     stages.append(("czt", ["--mode", "czt", "--budget", 150 if quick else 1500, "--seed", seed]))
-    res = core.parallel([mc] + [lambda n=n, a=a: core.drive(run, exe, a, n, timeout=3000) for n, a in stages])
+    kj = kernel_jobs(run, quick, maxlen=24 if quick else None)
+    res = core.parallel([mc] + [j for j, _ in kj] + [lambda n=n, a=a: core.drive(run, exe, a, n, timeout=3000) for n, a in stages])
     run.add_tlc(res[0], "MC_Transform (factor split, Cooley-Tukey index algebra, conjugate symmetry, STFT arithmetic)")
+    for (_, what), r in zip(kj, res[1:1 + len(kj)]):
+        run.add_tlc(r, what)
+    run.extra["kernel_lengths_proved_in_finite_fields"] = sum(len(w.split("lengths")[1].split(",")) for _, w in kj)
+    res = res[len(kj):]
     n = 0
     worst = {}
     for (name, args), recs in zip(stages, res[1:]):
@@ -69,6 +97,8 @@ def check(run, tier, seed, replay=None, only=None):
                        limit=8)
     run.extra["worst_error_milli_of_bound"] = worst
     run.nontrivial = set(range(n))
+    run.clause("transcribed kernels (plan selection, factor tree, radix-2 cascade, dft3, slow DFT, Bluestein, real packing, "
+               "ifft, irfft) = defining sum, exactly, in F_P for every impulse", "T1 (spec level)", run.extra["kernel_lengths_proved_in_finite_fields"])
     run.clause("impulse rows: twiddle exponent m*k mod n for every (n, m, k)", "T1", n)
     run.clause("output lengths; fft(x,n') = fft(resize(x,n')); real = complex path; conjugate symmetry", "T1m", n)
     run.clause("relative l2 error <= 32 n eps vs long-double DFT; czt vs defining sum", "T3", n)
